@@ -138,6 +138,9 @@ func driveXIBC(t *testing.T, in, out string, seed int64) {
 			case "Rotate":
 				res, msg := w.Rotate(on, str(st["counter"]))
 				line["res"], line["msg"], line["sig"] = res, clip(msg), "Rotate"
+			case "SendFake":
+				r := w.SendFake(on, str(st["dst"]), num(st["amt"]))
+				line["res"], line["msg"], line["sig"] = resOf(r), clip(r.Log+r.VMError), "SendFake"
 			case "NewClient":
 				res, msg := w.NewClient(on, str(st["counter"]), str(st["name"]))
 				line["res"], line["msg"], line["sig"] = res, clip(msg), "NewClient/"+str(st["name"])
